@@ -184,20 +184,59 @@ func execute(c Case) *pt.Failure {
 		}
 		return "foreign"
 	}
+	// subtle: the smallest change a comparison could overlook (letter case, last byte, one unit)
+	subtle := func(col *gen.ColSpec, cur memsql.Value) interface{} {
+		flip := func(b []byte) ([]byte, bool) {
+			out := append([]byte{}, b...)
+			for i, ch := range out {
+				switch {
+				case ch >= 'a' && ch <= 'z':
+					out[i] = ch - 32
+					return out, true
+				case ch >= 'A' && ch <= 'Z':
+					out[i] = ch + 32
+					return out, true
+				}
+			}
+			return out, false
+		}
+		switch v := cur.(type) {
+		case string:
+			if f, ok := flip([]byte(v)); ok {
+				return string(f)
+			}
+			return v + " "
+		case []byte:
+			if f, ok := flip(v); ok {
+				return f
+			}
+			return append(append([]byte{}, v...), 0)
+		case float64:
+			if col.Base == "DECIMAL" {
+				return v + 0.01
+			}
+			return v + 0.5
+		}
+		return bump(col, cur)
+	}
 	where := func(r *rowState) (string, []interface{}) { return pkWhere(tb, anyOf(r.after, r.before)) }
 	var ferr error
 	switch c.Foreign {
 	case "none":
-	case "change-written", "change-unwritten":
+	case "change-written", "change-unwritten", "change-written-subtly":
 		if target.after == nil {
 			return nil // row no longer exists: nothing to change
 		}
-		col := nonKey(c.Foreign == "change-written")
+		col := nonKey(c.Foreign != "change-unwritten")
 		if col == nil {
 			return nil
 		}
 		w, a := where(target)
-		ferr = exec("UPDATE "+tname+" SET "+col.Name+" = ? WHERE "+w, append([]interface{}{bump(col, target.after[col.Name])}, a...)...)
+		nv := bump(col, target.after[col.Name])
+		if c.Foreign == "change-written-subtly" {
+			nv = subtle(col, target.after[col.Name])
+		}
+		ferr = exec("UPDATE "+tname+" SET "+col.Name+" = ? WHERE "+w, append([]interface{}{nv}, a...)...)
 	case "delete-row":
 		if target.after == nil {
 			return nil
@@ -410,7 +449,7 @@ func min(a, b int) int {
 	return b
 }
 
-var foreignKinds = []string{"none", "change-written", "change-written", "change-unwritten", "delete-row", "reinsert-deleted", "reinsert-identical", "back-to-before", "change-some"}
+var foreignKinds = []string{"none", "change-written", "change-written", "change-written-subtly", "change-written-subtly", "change-unwritten", "delete-row", "reinsert-deleted", "reinsert-identical", "back-to-before", "change-some"}
 
 func stmtOptions() gen.StmtOptions {
 	o := gen.StmtOptions{ForceParamStrings: true, NoKeyAssignment: true}
